@@ -9,7 +9,7 @@ tier = "quick"
 if "--tier" in sys.argv:
     tier = sys.argv[sys.argv.index("--tier") + 1]
     args.remove(tier)
-seed, checks = args[0], args[1:]
+seed, checks = os.path.abspath(args[0]), args[1:]
 patch = os.path.join(seed, "patch.diff")
 st = subprocess.run(["git", "-C", "/repo", "status", "--porcelain"], capture_output=True, text=True).stdout.strip()
 assert st == "", "/repo working tree is not clean:\n" + st
